@@ -57,6 +57,9 @@ def classify(rec):
     if ev == "route":
         if 10 in rec["host"]:
             return "route:host-with-linefeed"
+        h = s(rec["host"]).split("\x00")[0].split("///")[0].strip(".")
+        if h == "":
+            return "route:empty-cleaned-host:" + ("dialed" if rec["dialed"] else "not-routed")
         return "route:" + ("dialed-without-route" if rec["dialed"] else "other")
     return ev + ":other"
 
